@@ -149,7 +149,9 @@ impl CachedBlocks {
   }
 
   pub fn get_region(&self, addr: u16) -> Option<&CacheRegion> {
-    if addr < 0x4000 {
+    // a block that begins in the last two bytes of bank 0 can contain an
+    // instruction whose operand bytes lie in the switchable bank
+    if addr < 0x3ffe {
       return Some(&self.rom_low);
     }
     if addr < 0x8000 {
@@ -177,7 +179,7 @@ impl CachedBlocks {
   }
 
   pub fn get_region_mut(&mut self, addr: u16) -> Option<&mut CacheRegion> {
-    if addr < 0x4000 {
+    if addr < 0x3ffe {
       return Some(&mut self.rom_low);
     }
     if addr < 0x8000 {
